@@ -32,12 +32,19 @@ import (
 )
 
 var (
-	workRoot   = filepath.Join(verifDir(), ".build", "c17work")
+	workRoot   = filepath.Join(verifDir(), ".build", "c17work"+os.Getenv("VERIF_WORKSUFFIX"))
 	pluginGo   = filepath.Join(workRoot, "protoc-gen-go")
 	pluginDrpc = filepath.Join(workRoot, "protoc-gen-go-drpc")
 	prepOnce   sync.Once
 	prepErr    error
 )
+
+func repoDir() string {
+	if d := os.Getenv("VERIF_REPO"); d != "" {
+		return d
+	}
+	return "/repo"
+}
 
 func verifDir() string {
 	if d := os.Getenv("VERIF_DIR"); d != "" {
@@ -63,14 +70,14 @@ func prepare() error {
 			prepErr = fmt.Errorf("building protoc-gen-go: %v\n%s", err, out)
 			return
 		}
-		if out, err := run("/repo", "go", "build", "-o", pluginDrpc, "./cmd/protoc-gen-go-drpc"); err != nil {
+		if out, err := run(repoDir(), "go", "build", "-o", pluginDrpc, "./cmd/protoc-gen-go-drpc"); err != nil {
 			prepErr = fmt.Errorf("building protoc-gen-go-drpc from /repo: %v\n%s", err, out)
 			return
 		}
 		mod := filepath.Join(workRoot, "mod")
 		os.MkdirAll(filepath.Join(mod, "customenc"), 0o755)
-		os.WriteFile(filepath.Join(mod, "go.mod"), []byte("module c17scratch\n\ngo 1.19\n\nrequire (\n\tgoogle.golang.org/protobuf v1.27.1\n\tstorj.io/drpc v0.0.0\n)\n\nreplace storj.io/drpc => /repo\n"), 0o644)
-		sum, _ := os.ReadFile("/repo/go.sum")
+		os.WriteFile(filepath.Join(mod, "go.mod"), []byte("module c17scratch\n\ngo 1.19\n\nrequire (\n\tgoogle.golang.org/protobuf v1.27.1\n\tstorj.io/drpc v0.0.0\n)\n\nreplace storj.io/drpc => "+repoDir()+"\n"), 0o644)
+		sum, _ := os.ReadFile(filepath.Join(repoDir(), "go.sum"))
 		os.WriteFile(filepath.Join(mod, "go.sum"), sum, 0o644)
 		os.WriteFile(filepath.Join(mod, "customenc", "enc.go"), []byte(customEnc), 0o644)
 	})
